@@ -231,7 +231,10 @@ def run_case(case):
           if k == "nl":
             # mechanism: MuJoCo emits one row per violated side of a limit, MJWarp one row per joint/tendon
             two = [key for key in rkeys if key[0] in (E.T_LJNT, E.T_LTEN) and key[2] == 1]
-            if two and rows[k] == ref[k] - len(two):
+            objs_r = {(key[0], key[1]) for key in rkeys if key[0] in (E.T_LJNT, E.T_LTEN)}
+            objs_w = {(key[0], key[1]) for key in wkeys if key[0] in (E.T_LJNT, E.T_LTEN)}
+            one_each = all(key[2] == 0 for key in wkeys if key[0] in (E.T_LJNT, E.T_LTEN))
+            if two and rows[k] == ref[k] - len(two) and objs_r == objs_w and one_each:
               sig = "nl:limit_active_on_both_sides"
           grp = {"ne": (E.T_EQ,), "nf": (E.T_FDOF, E.T_FTEN), "nl": (E.T_LJNT, E.T_LTEN)}[k]
           zero = [key for key, ii in wkeys.items() if key[0] in grp and key not in rkeys and not np.any(rows["J"][ii])]
@@ -317,7 +320,17 @@ def run_case(case):
             if e2 <= 0.1 * err:
               sig = "efc.aref:connect_weld:stale_velocity_fields_on_first_call"
               extra = f"; after a second forward() on the same Data the error drops to {e2:.3g} (make_constraint reads cvel/cdof_dot/subtree_linvel before fwd_velocity refreshed them)"
-        if f in ("pos", "margin") and key[0] == E.T_CELL and key[2] > 0 and float(ref[f][j]) == 0.0 and abs(float(rows["pos"][i]) - float(rows["margin"][i])) <= 1e-7:
+        im = [float(con["includemargin"][li]) for li in csel if int(con["slot"][li]) == int(rows["id"][i])]
+        if (
+          f in ("pos", "margin")
+          and key[0] == E.T_CELL
+          and key[2] > 0
+          and float(ref["pos"][j]) == 0.0
+          and float(ref["margin"][j]) == 0.0
+          and im
+          and abs(float(rows["pos"][i]) - im[0]) <= 1e-7
+          and abs(float(rows["margin"][i]) - im[0]) <= 1e-7
+        ):
           sig = "efc.pos+margin:contact_elliptic:friction_rows_carry_includemargin(mujoco:0)"
           extra = "; MuJoCo stores pos=margin=0 on the friction rows of an elliptic contact, MJWarp stores includemargin in both"
         rec.viol(
